@@ -26,6 +26,31 @@ CLAIMED["C15"] = {
     "text": "Machine-checked proof that as_new_flow selects the method by the table of the statement (transcribed as redirect_method) for every status and all nine methods, returns no flow and changes nothing when the redirect is not followed, that the redirect state is entered exactly for 3xx other than 304 on both paths (with and without body) and reports the received status. The whole domain (9 methods x 300..399 x 2 policies x with/without body) is enumerated against the real crate in both tiers.",
     "design_ref": "DESIGN.md section 7, C15", "note": COMMON_NOTE, "technique": TECH + " (exhaustive domain)"}
 
+CLAIMED["C02"] = {
+    "text": "Machine-checked proof over the model of request analysis and the resumable head writer: the rendered head is request line (method SP path-and-query or '/' SP version) + one line per effective header (caller-added first, then analysis-added Host/framing, then inherited) + one empty line; for every list of output capacities the concatenated output is a whole-line prefix emitted greedily (c02_prefix, induction over the capacity list), a call overflows iff not even the next line fits and then changes nothing (c02_overflow_iff), can_proceed iff all lines are out and later calls emit nothing (c02_complete), exactly one Host, framing header iff a body follows and equal to the writer mode chosen (c02_host_once, c02_framing, c02_body_iff_announced). Correspondence + independent Python head parser on generated header sets x capacity sequences incl. calls after completion and redirect depth 0..3.",
+    "design_ref": "DESIGN.md section 7, C02", "note": COMMON_NOTE + " HeaderMap iteration order of the original headers is read back from the http crate by the harness (an http-crate fact, not part of the property). Parse-back through the request-parser model (c02_parse_back of the design) is covered by the Python oracle only, not by a theorem.", "technique": TECH}
+CLAIMED["C03"] = {
+    "text": "Machine-checked proof: for every history of body writes on a chunked writer (any inputs, any capacities, finishing writes anywhere) the emitted bytes are concat(map enc_chunk cs) ++ (TERM if ended) with every chunk non-empty and concat cs = consumed input (c03_shape, induction over the op list), each call emits whole chunks only, the terminator is emitted only by an empty-input call in the not-ended state and ended iff it was emitted (c03_term_once, c03_finished_iff), afterwards non-empty writes are refused and all writes emit nothing (c03_after); hex size lines are inverse to the decoder's size parser and the model decoder of C07 run over the emitted bytes under any schedule returns exactly the consumed input (c03_roundtrip). Correspondence + independent Python chunked parser on generated schedules incl. capacities 0..12 and exact-leftover capacities.",
+    "design_ref": "DESIGN.md section 7, C03", "note": COMMON_NOTE, "technique": TECH}
+CLAIMED["C05"] = {
+    "text": "Machine-checked proof over the httparse model: a verdict other than 'partial' is stable under appending bytes (c05_hp_stable, for arbitrary bytes), a well-formed head followed by anything parses to exactly its version/status/fields consuming exactly |H| (c05_roundtrip), hence every strict prefix is 'partial' (c05_prefix_partial) and Flow/Call::try_response returns 'need more data, 0 consumed, state unchanged' on every strict prefix outside the known class F10 (c05_prefix) and the exact head on H++rest (c05_complete); more than 128 fields is an error as soon as the 129th line is complete (c05_limit). The known finding (3xx head cut after a complete Location line) is characterised exactly (c05_known_class) and witnessed (c05_known_refuted). Correspondence + oracle on every prefix of generated heads.",
+    "design_ref": "DESIGN.md section 7, C05/C20", "note": COMMON_NOTE + " httparse 1.9.5 itself is modelled (scalar semantics), not verified. Known finding F10 listed in known_findings.txt.", "technique": TECH}
+CLAIMED["C07"] = {
+    "text": "Machine-checked simulation proof between the Dechunker/read_chunked model and the chunked grammar (valid codings as data: size lines with hex digits, leading zeros, OWS, extensions; trailers): from any related state, for every window take k (R ++ rest), capacity and stop flag, one read returns Ok, consumes a prefix of the coding only, emits a prefix of the remaining payload within capacity and lands in a related state (c07_step); lifted over every schedule by induction (c07_run): outputs concatenate to a payload prefix, consumption never exceeds the coding, ended iff the whole coding was consumed, then output = payload; with boundary stop one read stays inside one chunk (c07_boundary); progress whenever a byte and space are available (c07_progress, c07_reaches_end). Premise len(size line) <= 20 is known finding F17 (c07_known_refuted). Correspondence + oracle on the small-scope grammar x cut sets x capacities, always followed by next-message bytes.",
+    "design_ref": "DESIGN.md section 7, C07", "note": COMMON_NOTE + " Known finding F17 listed in known_findings.txt.", "technique": TECH + " (simulation invariant, induction over schedules)"}
+CLAIMED["C17"] = {
+    "text": "Machine-checked proof: request analysis fails iff the request is in one of the rejection classes of the statement (c17_iff against the independently written predicate invalid: version, method-for-version, >1 effective Host/Content-Length, Content-Length not 1*DIGIT<2^64, non-text Host, body on a no-body method without 'despite', body method without body), never panics, and the first write of Flow<SendRequest>, Call<WithoutBody>, Call<WithBody> errs iff invalid, for every capacity, emitting nothing and leaving the state unchanged so that the refusal repeats and can_proceed stays false (c17_flow_iff, c17_rejected, c17_repeatable); every other request is accepted (c17_accept). Exhaustive correspondence over the quantifier's product (~22k requests) on both APIs in both tiers.",
+    "design_ref": "DESIGN.md section 7, C17", "note": COMMON_NOTE, "technique": TECH + " (exhaustive product of the quantifier)"}
+CLAIMED["C18"] = {
+    "text": "Machine-checked arithmetic proof over the chunk writer with constants regenerated from the source: the consumed count depends only on (input length, capacity) (c18_consumed_len_only); an input of calculate_max_input(n) bytes is consumed completely by one write into n bytes (c18_fits, strong induction over the chunk loop, for every n), calculate_max_input n <= n and is monotone (c18_le, c18_mono); for a sized body the advertised value is n and min(n,left) is consumed (c18_sized, c18_advertised). Correspondence + oracle sweep of n over 0..3*10248+64 (thorough: every n) on the real crate.",
+    "design_ref": "DESIGN.md section 7, C18/C19", "note": COMMON_NOTE, "technique": TECH + " (exhaustive sweep of n in thorough)"}
+CLAIMED["C19"] = {
+    "text": "Machine-checked proof: a chunked write with non-empty input and capacity >= 6 consumes >= 1 byte (c19_progress), consumption is monotone in the offered input (c19_mono_input) and not below what the advertised maximum would have consumed (c19_not_below_max); a sized write with input, room and remaining length >= 1 consumes >= 1 (c19_progress_sized); the caller loop 'write until input empty' with fixed capacity terminates within len(input) iterations with all input sent (c19_loop, c19_loop_sized; out-of-fuel proved unreachable). Correspondence + oracle on the (input, capacity) grid incl. chunk-size and hex-digit boundaries.",
+    "design_ref": "DESIGN.md section 7, C18/C19", "note": COMMON_NOTE, "technique": TECH}
+CLAIMED["C20"] = {
+    "text": "Machine-checked proof over the httparse model and the three public wrappers with the field limit as a parameter: well-formed response/request head ++ anything parses to exactly its status|method, version, all fields and |H| consumed when fields <= limit (c20_response_complete, c20_request_complete); every strict prefix is 'incomplete' (c20_*_prefix); more fields than the limit is the too-many-headers error, raised as soon as line limit+1 is complete (c20_*_limit, c20_*_limit_early); the partial response parser reports only completely present fields, as a prefix of the head's field list (c20_partial_sound, c20_partial_view) and returns Ok on every prefix within the limit (c20_partial_total). Correspondence + oracle on every prefix of generated heads for limits 0, 1, 4, 128.",
+    "design_ref": "DESIGN.md section 7, C05/C20", "note": COMMON_NOTE + " httparse 1.9.5 itself is modelled (scalar semantics), not verified.", "technique": TECH}
+
 NOT_YET = {}
 ALL = ["C%02d" % i for i in range(1, 21)]
 
